@@ -826,6 +826,11 @@ def CheckProofOfWork(hash, nBits):
     """
     target = uint256_from_compact(nBits)
 
+    # A compact value with the sign bit (0x00800000) set denotes a negative
+    # (or negative zero) target, which is never valid
+    if nBits & 0x00800000:
+        raise CheckProofOfWorkError("CheckProofOfWork() : nBits below minimum work")
+
     # Check range
     if not (0 < target <= coreparams.PROOF_OF_WORK_LIMIT):
         raise CheckProofOfWorkError("CheckProofOfWork() : nBits below minimum work")
